@@ -271,13 +271,14 @@ namespace c05
     typedef SparseMatrixCSR<DT_, IT_> Type;
     static const char* name() { return "SparseMatrixCSR"; }
     // v: 0 default; 1..16 entry-free (m,n) in {0..3}^2 via CSR(m,n); 17..25 CSR(m,n,0) with arrays but no entries;
-    // then every non-empty pattern of every shape <= 3x3 (thorough: + 3x4 and 4x3 selected)
+    // then every non-empty pattern of every shape <= 3x3 and of 3x4 (thorough: + 4x3 and 4x4)
     static Index npat(Index m, Index n) { return (Index(1) << (m * n)) - 1; }
     static Index count(bool thorough)
     {
       Index c = 1 + 16 + 9;
       for(Index s = 0; s < 9; ++s) { Index m, n; shape_of(s, m, n); c += npat(m, n); }
-      if(thorough) c += 2 * 4095;
+      c += 4095;                       // 3x4
+      if(thorough) c += 4095 + 65535;  // 4x3, 4x4
       return c;
     }
     static Type from_mask(Index m, Index n, uint64_t mask, bool rnd)
@@ -314,7 +315,9 @@ namespace c05
       }
       if(v < 4095) { d = "3x4 pattern " + std::to_string(v + 1); return from_mask(3, 4, v + 1, rnd); }
       v -= 4095;
-      d = "4x3 pattern " + std::to_string(v + 1); return from_mask(4, 3, v + 1, rnd);
+      if(v < 4095) { d = "4x3 pattern " + std::to_string(v + 1); return from_mask(4, 3, v + 1, rnd); }
+      v -= 4095;
+      d = "4x4 pattern " + std::to_string(v + 1); return from_mask(4, 4, v + 1, rnd);
     }
   };
 
